@@ -96,6 +96,14 @@ def _inside_grid_with_n(main_domain, domain_a, domain_b, n, params, invert, devi
     device : str
         The device on which the points should be created.
     """
+    if len(params) > 1:
+        # the grid is fitted to one parameter row at a time
+        grid = Points.empty()
+        for i in range(len(params)):
+            grid = grid | _inside_grid_with_n(
+                main_domain, domain_a, domain_b, n, params[i,], invert, device
+            )
+        return grid
     # first sample grid inside the domain_a
     grid_a = domain_a.sample_grid(n=n, params=params, device=device)
     _, repeat_params = main_domain._repeat_params(n, params)
